@@ -16,7 +16,7 @@ theorem ext_disestablish {am : Bool} {n : Node} (hi : Host) {m : Node} (e : Ext 
     intro l
     induction l with
     | nil => intro m e; exact e
-    | cons a l ih => intro m e; exact ih _ (ext_modHostsFor_map _ _ (keyPres_setState _ _) e)
+    | cons a l ih => intro m e; exact ih _ (ext_modHostsFor_map _ _ (keyPres_setState _ _) (stOK_setState _ _ (by decide) (by decide)) e)
   have step2 : ∀ (l : List Relay) (m : Node), Ext am n m →
       Ext am n (l.foldl (fun n rs => if rs.type == nebula_ForwardingType then
           n.modHostsFor rs.peerAddr (·.mapRecs (setStateF (hi.vpnAddrs.headD 0) nebula_Disestablished)) else n) m) := by
@@ -27,7 +27,7 @@ theorem ext_disestablish {am : Bool} {n : Node} (hi : Host) {m : Node} (e : Ext 
       intro m e
       simp only [List.foldl_cons]
       split
-      · exact ih _ (ext_modHostsFor_map _ _ (keyPres_setState _ _) e)
+      · exact ih _ (ext_modHostsFor_map _ _ (keyPres_setState _ _) (stOK_setState _ _ (by decide) (by decide)) e)
       · exact ih _ e
   exact step2 _ _ (step1 _ _ e)
 
@@ -124,38 +124,314 @@ theorem ro_deleteHost {n : Node} (hid : Nat) (h : RO n) : RO (deleteHost n hid) 
   · exact ro_unlinked hid h
   · exact (ext_disestablish (am := false) hi (Ext.refl _ _)).ro (ro_unlinked hid h)
 
-theorem ns_tunnelUp {n : Node} (id rid : Nat) (addrs : List Addr) (h : NS n) : NS (tunnelUp n id rid addrs) := by
+-- ---- well-formedness (index uniqueness) through tunnel churn
+
+theorem wf_unlinked {n : Node} (hid : Nat) (w : WF n) : WF (unlinked n hid) := by
+  obtain ⟨uh, gi, rc, sv⟩ := w
+  have sub : ∀ h, h ∈ (unlinked n hid).hosts → h ∈ n.hosts ∧ (h.id == hid) = false := by
+    intro h hh
+    simp only [unlinked, List.mem_filter] at hh
+    exact ⟨hh.1, by simpa using hh.2⟩
+  refine ⟨fun a ha b hb => uh a (sub a ha).1 b (sub b hb).1,
+    fun a ha b hb => gi a (sub a ha).1 b (sub b hb).1, ?_, fun a ha => sv a (sub a ha).1⟩
+  intro h hh r hr
+  obtain ⟨p, hp, hpe⟩ := rc h (sub h hh).1 r hr
+  refine ⟨p, ?_, hpe⟩
+  simp only [unlinked, List.mem_filter]
+  refine ⟨hp, ?_⟩
+  -- the entry would only be dropped if a hostinfo with id `hid` held a record with this index
+  cases hd : (((n.hosts.filter (fun h => h.id == hid)).flatMap (fun h => h.recs.map (·.localIndex))).contains p.1)
+  · rfl
+  · exfalso
+    simp only [List.contains_eq_mem, List.mem_flatMap, List.mem_filter, List.mem_map, decide_eq_true_eq] at hd
+    obtain ⟨d, ⟨hdm, hdid⟩, rd, hrd, hrde⟩ := hd
+    have := (gi h (sub h hh).1 d hdm r hr rd hrd (by rw [hrde, hpe])).1
+    have h2 := (sub h hh).2
+    rw [this] at h2
+    simp [h2] at hdid
+
+theorem wf_deleteHost {n : Node} (hid : Nat) (w : WF n) : WF (deleteHost n hid) := by
+  rcases deleteHost_eq n hid with e | e | ⟨hi, e⟩ <;> rw [e]
+  · exact w
+  · exact wf_unlinked hid w
+  · exact (ext_disestablish (am := false) hi (Ext.refl _ _)).wf (wf_unlinked hid w)
+
+/-- every record of `m` is a record of `n` (same hostinfo id, same identity; state kept or moved to a state
+other than PeerRequested). -/
+def MapOnly (n m : Node) : Prop :=
+  ∀ h' ∈ m.hosts, ∀ r' ∈ h'.recs, ∃ h ∈ n.hosts, h.id = h'.id ∧ ∃ r ∈ h.recs, r.type = r'.type ∧
+    r.peerAddr = r'.peerAddr ∧ r.localIndex = r'.localIndex ∧ (r.state = r'.state ∨ r'.state ≠ nebula_PeerRequested)
+
+theorem MapOnly.refl (n : Node) : MapOnly n n :=
+  fun h' hh' r' hr' => ⟨h', hh', rfl, r', hr', rfl, rfl, rfl, Or.inl rfl⟩
+
+theorem MapOnly.trans {a b c : Node} (h1 : MapOnly a b) (h2 : MapOnly b c) : MapOnly a c := by
+  intro h' hh' r' hr'
+  obtain ⟨hb, hhb, idb, rb, hrb, k1, k2, k3, st2⟩ := h2 h' hh' r' hr'
+  obtain ⟨ha, hha, ida, ra, hra, j1, j2, j3, st1⟩ := h1 hb hhb rb hrb
+  refine ⟨ha, hha, by rw [ida, idb], ra, hra, by rw [j1, k1], by rw [j2, k2], by rw [j3, k3], ?_⟩
+  rcases st2 with q | q
+  · rcases st1 with p | p
+    · exact Or.inl (by rw [p, q])
+    · exact Or.inr (by rw [← q]; exact p)
+  · exact Or.inr q
+
+/-- from an extension step with no fresh records. -/
+theorem mapOnly_of_ext_from {am : Bool} {n m : Node} (e : Ext am n m)
+    (nonew : ∀ h' ∈ m.hosts, ∀ r' ∈ h'.recs, ∃ h ∈ n.hosts, ∃ r ∈ h.recs, r.localIndex = r'.localIndex) (w : WF n) :
+    MapOnly n m := by
+  intro h' hh' r' hr'
+  rcases e.orig h' hh' r' hr' with o | fr
+  · exact o
+  · obtain ⟨h, hh, r, hr, he⟩ := nonew h' hh' r' hr'
+    exact absurd he (fr w h hh r hr)
+
+theorem mapOnly_mapRecs (m : Node) (p : Host → Bool) (f : Relay → Relay) (hf : KeyPres f) (hs : StOK f) :
+    MapOnly m { m with hosts := m.hosts.map (fun h => if p h then h.mapRecs f else h) } := by
+  intro h' hh' r' hr'
+  obtain ⟨h0, hh0, rfl⟩ := List.mem_map.mp hh'
+  by_cases c : p h0 = true
+  · simp only [c, if_true, Host.mapRecs] at hr' ⊢
+    obtain ⟨r0, hr0, rfl⟩ := List.mem_map.mp hr'
+    exact ⟨h0, hh0, rfl, r0, hr0, ((hf r0).1).symm, ((hf r0).2.1).symm, ((hf r0).2.2).symm,
+      (hs r0).1.elim (fun q => Or.inl q.symm) Or.inr⟩
+  · simp only [c] at hr' ⊢
+    exact ⟨h0, hh0, by simp, r', by simpa using hr', rfl, rfl, rfl, Or.inl rfl⟩
+
+theorem mapOnly_modHostsFor (m : Node) (a : Addr) (f : Relay → Relay) (hf : KeyPres f) (hs : StOK f) :
+    MapOnly m (m.modHostsFor a (·.mapRecs f)) := mapOnly_mapRecs m _ f hf hs
+
+theorem mapOnly_modHost (m : Node) (hid : Nat) (f : Relay → Relay) (hf : KeyPres f) (hs : StOK f) :
+    MapOnly m (m.modHost hid (·.mapRecs f)) := mapOnly_mapRecs m (fun h => h.id == hid) f hf hs
+
+theorem mapOnly_disestablish (m : Node) (hi : Host) : MapOnly m (disestablish m hi) := by
+  unfold disestablish
+  have step1 : ∀ (l : List Addr) (x : Node), MapOnly m x →
+      MapOnly m (l.foldl (fun n ip => n.modHostsFor ip (·.mapRecs (setStateF (hi.vpnAddrs.headD 0) nebula_Disestablished))) x) := by
+    intro l
+    induction l with
+    | nil => intro x e; exact e
+    | cons a l ih =>
+      intro x e
+      exact ih _ (e.trans (mapOnly_modHostsFor x a _ (keyPres_setState _ _) (stOK_setState _ _ (by decide) (by decide))))
+  have step2 : ∀ (l : List Relay) (x : Node), MapOnly m x →
+      MapOnly m (l.foldl (fun n rs => if rs.type == nebula_ForwardingType then
+          n.modHostsFor rs.peerAddr (·.mapRecs (setStateF (hi.vpnAddrs.headD 0) nebula_Disestablished)) else n) x) := by
+    intro l
+    induction l with
+    | nil => intro x e; exact e
+    | cons a l ih =>
+      intro x e
+      simp only [List.foldl_cons]
+      split
+      · exact ih _ (e.trans (mapOnly_modHostsFor x a.peerAddr _ (keyPres_setState _ _) (stOK_setState _ _ (by decide) (by decide))))
+      · exact ih _ e
+  exact step2 _ _ (step1 _ _ (MapOnly.refl m))
+
+theorem mapOnly_unlinked (n : Node) (hid : Nat) : MapOnly n (unlinked n hid) := by
+  intro h' hh' r' hr'
+  simp only [unlinked, List.mem_filter] at hh'
+  exact ⟨h', hh'.1, rfl, r', hr', rfl, rfl, rfl, Or.inl rfl⟩
+
+theorem mapOnly_deleteHost (n : Node) (hid : Nat) : MapOnly n (deleteHost n hid) := by
+  rcases deleteHost_eq n hid with e | e | ⟨hi, e⟩ <;> rw [e]
+  · exact MapOnly.refl n
+  · exact mapOnly_unlinked n hid
+  · exact (mapOnly_unlinked n hid).trans (mapOnly_disestablish _ hi)
+
+/-- a property preserved by `deleteHost` is preserved by the eviction loop of `tunnelUp`. -/
+theorem fold_evict {P : Node → Prop} (hdel : ∀ n hid, P n → P (deleteHost n hid)) :
+    ∀ (addrs : List Addr) (n : Node), P n → P (addrs.foldl evictFor n) := by
+  intro addrs
+  induction addrs with
+  | nil => intro n h; exact h
+  | cons a l ih =>
+    intro n h
+    simp only [List.foldl_cons]
+    apply ih
+    unfold evictFor
+    split
+    · split
+      · exact hdel _ _ h
+      · exact h
+    · exact h
+
+theorem mapOnly_fold_evict (addrs : List Addr) (n : Node) : MapOnly n (addrs.foldl evictFor n) := by
+  induction addrs generalizing n with
+  | nil => exact MapOnly.refl n
+  | cons a l ih =>
+    simp only [List.foldl_cons]
+    refine MapOnly.trans ?_ (ih _)
+    unfold evictFor
+    split
+    · split
+      · exact mapOnly_deleteHost _ _
+      · exact MapOnly.refl n
+    · exact MapOnly.refl n
+
+theorem tunnelUp_cases (n : Node) (id rid : Nat) (addrs : List Addr) (via : Option Addr) :
+    tunnelUp n id rid addrs via = n ∨
+      (n.findHost id = none ∧ tunnelUp n id rid addrs via = addrs.foldl evictFor
+        { n with hosts := { id := id, remoteId := rid, vpnAddrs := addrs, remoteValid := via.isNone, relayIps := via.toList } :: n.hosts }) := by
   unfold tunnelUp
   split
+  · exact Or.inl rfl
+  · rename_i hc
+    right
+    refine ⟨?_, rfl⟩
+    cases hf : n.findHost id with
+    | none => rfl
+    | some x => simp [hf] at hc
+
+theorem fresh_id {n : Node} {id : Nat} (hf : n.findHost id = none) : ∀ h ∈ n.hosts, h.id ≠ id := by
+  intro h hh heq
+  unfold Node.findHost at hf
+  rw [List.find?_eq_none] at hf
+  exact hf h hh (by simp [heq])
+
+theorem ns_tunnelUp {n : Node} (id rid : Nat) (addrs : List Addr) (via : Option Addr) (h : NS n) :
+    NS (tunnelUp n id rid addrs via) := by
+  rcases tunnelUp_cases n id rid addrs via with e | ⟨_, e⟩ <;> rw [e]
   · exact h
-  · intro h' hh' r' hr' hty
+  · apply fold_evict (P := NS) (fun n hid => ns_deleteHost hid)
+    intro h' hh' r' hr' hty
     simp only [List.mem_cons] at hh'
     rcases hh' with rfl | hh'
     · simp at hr'
     · exact h h' hh' r' hr' hty
 
-theorem ro_tunnelUp {n : Node} (id rid : Nat) (addrs : List Addr) (h : RO n) : RO (tunnelUp n id rid addrs) := by
-  unfold tunnelUp
-  split
+theorem ro_tunnelUp {n : Node} (id rid : Nat) (addrs : List Addr) (via : Option Addr) (h : RO n) :
+    RO (tunnelUp n id rid addrs via) := by
+  rcases tunnelUp_cases n id rid addrs via with e | ⟨_, e⟩ <;> rw [e]
   · exact h
-  · intro p hp
+  · apply fold_evict (P := RO) (fun n hid => ro_deleteHost hid)
+    intro p hp
     obtain ⟨h0, hh0, r⟩ := h p hp
     exact ⟨h0, List.mem_cons_of_mem _ hh0, r⟩
 
-def Inv (n : Node) : Prop := NS n ∧ RO n
+theorem wf_tunnelUp {n : Node} (id rid : Nat) (addrs : List Addr) (via : Option Addr) (w : WF n) :
+    WF (tunnelUp n id rid addrs via) := by
+  rcases tunnelUp_cases n id rid addrs via with e | ⟨hf, e⟩ <;> rw [e]
+  · exact w
+  · apply fold_evict (P := WF) (fun n hid => wf_deleteHost hid)
+    obtain ⟨uh, gi, rc, sv⟩ := w
+    have fr := fresh_id hf
+    refine ⟨?_, ?_, ?_, ?_⟩
+    · intro a ha b hb hid
+      simp only [List.mem_cons] at ha hb
+      rcases ha with rfl | ha <;> rcases hb with rfl | hb
+      · rfl
+      · exact absurd hid.symm (fr b hb)
+      · exact absurd hid (fr a ha)
+      · exact uh a ha b hb hid
+    · intro a ha b hb r1 hr1 r2 hr2 hidx
+      simp only [List.mem_cons] at ha hb
+      rcases ha with rfl | ha
+      · simp at hr1
+      · rcases hb with rfl | hb
+        · simp at hr2
+        · exact gi a ha b hb r1 hr1 r2 hr2 hidx
+    · intro a ha r hr
+      simp only [List.mem_cons] at ha
+      rcases ha with rfl | ha
+      · simp at hr
+      · exact rc a ha r hr
+    · intro a ha r hr
+      simp only [List.mem_cons] at ha
+      rcases ha with rfl | ha
+      · simp at hr
+      · exact sv a ha r hr
 
-theorem inv_step {s : Node × Nat} (op : Op) (h : Inv s.1) : Inv (step s op).1 := by
+theorem mapOnly_tunnelUp (n : Node) (id rid : Nat) (addrs : List Addr) (via : Option Addr) :
+    MapOnly n (tunnelUp n id rid addrs via) := by
+  rcases tunnelUp_cases n id rid addrs via with e | ⟨_, e⟩ <;> rw [e]
+  · exact MapOnly.refl n
+  · refine MapOnly.trans ?_ (mapOnly_fold_evict addrs _)
+    intro h' hh' r' hr'
+    simp only [List.mem_cons] at hh'
+    rcases hh' with rfl | hh'
+    · simp at hr'
+    · exact ⟨h', hh', rfl, r', hr', rfl, rfl, rfl, Or.inl rfl⟩
+
+-- ---- per-step consequences: record identity and state transitions
+
+/-- the `orig` relation of `Ext`, on its own. -/
+def Orig (n m : Node) : Prop :=
+  ∀ h' ∈ m.hosts, ∀ r' ∈ h'.recs,
+    (∃ h ∈ n.hosts, h.id = h'.id ∧ ∃ r ∈ h.recs, r.type = r'.type ∧ r.peerAddr = r'.peerAddr ∧
+        r.localIndex = r'.localIndex ∧ (r.state = r'.state ∨ r'.state ≠ nebula_PeerRequested))
+    ∨ (WF n → ∀ h ∈ n.hosts, ∀ r ∈ h.recs, r.localIndex ≠ r'.localIndex)
+
+theorem MapOnly.orig {n m : Node} (h : MapOnly n m) : Orig n m := fun h' hh' r' hr' => Or.inl (h h' hh' r' hr')
+
+theorem identityStable_of_orig {n m : Node} (w : WF n) (o : Orig n m) : identityStable n m = true := by
+  unfold identityStable
+  simp only [List.all_eq_true, Bool.or_eq_true, Bool.not_eq_true', beq_eq_false_iff_ne, ne_eq, Bool.and_eq_true, beq_iff_eq]
+  intro h' hh' r' hr' h hh
+  by_cases cid : h.id = h'.id
+  · right
+    intro r hr
+    by_cases cix : r.localIndex = r'.localIndex
+    · right
+      rcases o h' hh' r' hr' with ⟨h0, hh0, hid0, r0, hr0, k1, k2, k3, _⟩ | fr
+      · have := (w.2.1 h hh h0 hh0 r hr r0 hr0 (by rw [cix, k3])).2
+        rw [this]; exact ⟨k1, k2⟩
+      · exact absurd cix (fr w h hh r hr)
+    · exact Or.inl cix
+  · exact Or.inl cid
+
+theorem statesValid_of_orig {n m : Node} (w : WF n) (wm : SV m) (o : Orig n m) : statesValid n m = true := by
+  unfold statesValid
+  simp only [List.all_eq_true, Bool.or_eq_true, Bool.not_eq_true', beq_eq_false_iff_ne, ne_eq, Bool.and_eq_true, beq_iff_eq]
+  intro h' hh' r' hr'
+  refine ⟨wm h' hh' r' hr', ?_⟩
+  intro h hh
+  by_cases cid : h.id = h'.id
+  · right
+    intro r hr
+    by_cases cix : r.localIndex = r'.localIndex
+    · rcases o h' hh' r' hr' with ⟨h0, hh0, hid0, r0, hr0, _, _, k3, st⟩ | fr
+      · have := (w.2.1 h hh h0 hh0 r hr r0 hr0 (by rw [cix, k3])).2
+        rw [this]
+        rcases st with q | q
+        · exact Or.inl (Or.inr q)
+        · exact Or.inr q
+      · exact absurd cix (fr w h hh r hr)
+    · exact Or.inl (Or.inl cix)
+  · exact Or.inl cid
+
+def Inv (n : Node) : Prop := NS n ∧ RO n ∧ WF n
+
+/-- what one operation does to the records, as `Orig` plus preservation of the invariants. -/
+theorem step_orig_inv {s : Node × Nat} (op : Op) (h : Inv s.1) : Orig s.1 (step s op).1 ∧ Inv (step s op).1 := by
+  obtain ⟨ns, ro, wf⟩ := h
   cases op with
-  | up id rid addrs => exact ⟨ns_tunnelUp _ _ _ h.1, ro_tunnelUp _ _ _ h.2⟩
-  | down hid => exact ⟨ns_deleteHost _ h.1, ro_deleteHost _ h.2⟩
+  | up id rid addrs via =>
+    exact ⟨(mapOnly_tunnelUp _ _ _ _ _).orig, ns_tunnelUp _ _ _ _ ns, ro_tunnelUp _ _ _ _ ro, wf_tunnelUp _ _ _ _ wf⟩
+  | down hid =>
+    exact ⟨(mapOnly_deleteHost _ _).orig, ns_deleteHost _ ns, ro_deleteHost _ ro, wf_deleteHost _ wf⟩
   | ctl hid m =>
     have e := ext_handleControl s.1 s.2 hid m
-    exact ⟨e.ns h.1, e.ro h.2⟩
-  | reload b => exact h
+    exact ⟨e.orig, e.ns ns, e.ro ro, e.wf wf⟩
+  | reload b => exact ⟨(MapOnly.refl _).orig, ns, ro, wf⟩
   | setRemote hid v =>
     have e : Ext false s.1 (s.1.modHost hid (fun h => { h with remoteValid := v })) :=
       ext_modHost_other hid _ (fun h => ⟨rfl, rfl⟩) (Ext.refl _ _)
-    exact ⟨e.ns h.1, e.ro h.2⟩
+    exact ⟨e.orig, e.ns ns, e.ro ro, e.wf wf⟩
+  | start vpnIp v1 relays =>
+    have e := ext_startRelays s.1 s.2 vpnIp v1 relays
+    exact ⟨e.orig, e.ns ns, e.ro ro, e.wf wf⟩
+  | migrate o nw v1 =>
+    have e := ext_migrate s.1 s.2 o nw v1 ns
+    exact ⟨e.orig, e.ns ns, e.ro ro, e.wf wf⟩
+  | relayHs hh i =>
+    have e : Ext false s.1 (relayHandshakeSeen s.1 hh i) :=
+      ext_modHost_map hh _ (keyPres_setStateIdx _ _) (stOK_setStateIdx _ _ (by decide) (by decide)) (Ext.refl _ _)
+    exact ⟨e.orig, e.ns ns, e.ro ro, e.wf wf⟩
+  | used i => exact ⟨(MapOnly.refl _).orig, ns, ro, wf⟩
+  | reloadUse b => exact ⟨(MapOnly.refl _).orig, ns, ro, wf⟩
+
+theorem inv_step {s : Node × Nat} (op : Op) (h : Inv s.1) : Inv (step s op).1 := (step_orig_inv op h).2
 
 theorem inv_run (ops : List Op) : ∀ s : Node × Nat, Inv s.1 → Inv (run s ops).1 := by
   induction ops with
@@ -163,6 +439,8 @@ theorem inv_run (ops : List Op) : ∀ s : Node × Nat, Inv s.1 → Inv (run s op
   | cons op ops ih => intro s h; exact ih _ (inv_step op h)
 
 theorem inv_init (my : List Addr) (am : Bool) : Inv (init my am) :=
-  ⟨fun h hh => by simp [init] at hh, fun p hp => by simp [init] at hp⟩
+  ⟨fun h hh => by simp [init] at hh, fun p hp => by simp [init] at hp,
+   fun a ha => by simp [init] at ha, fun a ha => by simp [init] at ha,
+   fun a ha => by simp [init] at ha, fun a ha => by simp [init] at ha⟩
 
 end Nebula.Lemmas.Relay
